@@ -20,7 +20,7 @@ from lib import budget, runner, stateful
 
 CONFIG = {
     "shards": {"quick": 8, "thorough": 16},
-    "budget_s": {"quick": 120, "thorough": 1500},
+    "budget_s": {"quick": 300, "thorough": 2400},   # only reached when a hanging case is being shrunk
     "rule": ("machine: Hypothesis rule-based histories over concatenate / export_character_indices / "
              "export_character_subset / new_character_subset / fill / fill_taxa / pack / add_ / replace_ / update_ / "
              "extend_sequences / extend_matrix / remove_ / discard_ / keep_sequences (+ a row assignment to keep states "
@@ -35,7 +35,8 @@ CONFIG = {
         "<= 4 taxa x <= 5 columns per generated matrix (results of concatenation/extension grow up to 40 columns)",
         "concatenate is only called on complete rectangular matrices over one namespace (its documented domain), "
         "except for the refusal clause (one matrix over a foreign namespace)",
-        "step budget: limit = 200000 + 5000 x cells events; observed maxima are recorded in notes.max",
+        "step budget: limit = 50000 + 2000 x cells events (>= 50x the largest passing call of that size); observed maxima are "
+        "recorded in notes.max, and a passing call above limit/10 is a harness error",
         "subset labels that differ only by case are not asserted either way (the store is caseless, undocumented)",
     ],
     "exhaustive": {"quick": False, "thorough": False},
@@ -66,10 +67,14 @@ MAT_LABELS = [None, "A", "a", "B", "locus001", "A_002"]
 SUB_LABELS = ["s1", "s2", "S3", "A", "B", "locus000"]
 MAX_TAXA = 4
 MAX_COLS = 5
+MAX_WIDTH = 40      # histories are not allowed to grow rows beyond this (repeated self-extension doubles them)
 
 
 def limit_for(cells):
-    return 200000 + 5000 * cells
+    """Step budget for a call over `cells` cells.  DESIGN 1.5 planned 200000 + 5000 x cells; the measured maxima (a few
+    hundred events for the smallest inputs - deep copies dominate - and < 7 events per cell beyond that, see notes.max)
+    allow a quarter of that while staying > 50x above every passing call, and make shrinking a hanging case 4x cheaper."""
+    return 50000 + 2000 * cells
 
 
 class Kit(object):
@@ -231,7 +236,7 @@ STORE = st.sampled_from([None, None, 0, 1, 2, 3])
 ROW = st.lists(CELL, min_size=MAX_COLS, max_size=MAX_COLS)
 MAT = st.fixed_dictionaries({
     "label": MLBL,
-    "kind": st.sampled_from([0, 0, 0, 1, 2]),     # 0 complete rectangular, 1 rectangular with absent rows, 2 ragged
+    "kind": st.sampled_from([0, 0, 1, 1, 2]),     # 0 complete rectangular, 1 rectangular with absent rows, 2 ragged
     "ncols": st.integers(0, MAX_COLS),
     "mask": st.integers(0, 2 ** MAX_TAXA - 1),
     "lens": st.lists(st.integers(0, MAX_COLS), min_size=MAX_TAXA, max_size=MAX_TAXA),
@@ -240,7 +245,8 @@ MAT = st.fixed_dictionaries({
 INIT = st.fixed_dictionaries({
     "dtype": st.sampled_from(TYPE_NAMES),
     "ns": st.lists(st.integers(0, len(NS_LABELS) - 1), min_size=1, max_size=MAX_TAXA),
-    "mats": st.lists(MAT, min_size=1, max_size=3),
+    "nmats": st.sampled_from([1, 2, 2, 2, 3, 3, 3]),
+    "mats": st.lists(MAT, min_size=3, max_size=3),
     "foreign": MAT,
 })
 
@@ -250,13 +256,13 @@ def fd(**kw):
 
 
 PAD = dict(k=K, v=CELL, size=st.sampled_from([None, None, 0, 1, 2, 3, 4, 5, 6, 8]), append=st.booleans())
-OTHER = dict(k=K, o=K, foreign=st.sampled_from([False] * 5 + [True]))
+OTHER = dict(k=K, off=st.sampled_from([1, 1, 1, 1, 2, 2, 0]), foreign=st.sampled_from([False] * 5 + [True]))
 ROWSET = dict(k=K, taxa=TAXA, foreign_taxon=st.sampled_from([False, False, True]), as_iter=st.booleans())
 RULES = {
     "concatenate": fd(sel=st.lists(K, min_size=1, max_size=3), foreign_at=st.sampled_from([None] * 5 + [0, 1, 2]),
                       store=STORE, label=MLBL),
     "export_indices": fd(k=K, idx=IDX, store=STORE, label=MLBL),
-    "export_subset": fd(k=K, which=st.integers(0, 5), by=st.sampled_from(["label", "label", "object", "fresh", "missing"]),
+    "export_subset": fd(k=K, which=st.integers(0, 5), by=st.sampled_from(["label", "label", "label", "object", "object", "fresh", "missing"]),
                         idx=IDX, store=STORE, label=MLBL),
     "new_subset": fd(k=K, label=st.integers(0, len(SUB_LABELS) - 1), idx=IDX),
     "fill": fd(**PAD),
@@ -309,14 +315,14 @@ class Interp(object):
         self.fns = d.TaxonNamespace()
         self.ftaxa = [self.fns.new_taxon(NS_LABELS[l]) for l in init["ns"]]
         self.slots = []
-        for spec in init["mats"]:
+        for spec in init["mats"][:init.get("nmats", 3)]:
             m, rows = self.kit.build(self.ns, self.taxa, MAT_LABELS[spec["label"]], rows_from_spec(spec, self.n))
             self.slots.append(Slot(m, rows))
         fspec = dict(init["foreign"], kind=0, ncols=max(1, init["foreign"]["ncols"]))
         fm, frows = self.kit.build(self.fns, self.ftaxa, MAT_LABELS[fspec["label"]], rows_from_spec(fspec, self.n))
         self.foreign = Slot(fm, frows)
         self.effective = 0
-        self.sig = [init["dtype"], init["ns"], [[s["label"], s["kind"]] for s in init["mats"]]]
+        self.sig = [init["dtype"], init["ns"], [[s["label"], s["kind"]] for s in init["mats"][:init.get("nmats", 3)]]]
         ctx.cls("type:" + init["dtype"])
         ctx.cls("matrices:%d" % len(self.slots))
         if len(set(NS_LABELS[l] for l in init["ns"])) < self.n:
@@ -397,6 +403,9 @@ class Interp(object):
                         del args[j]
                         break
                 fa = [j for j, x in enumerate(args) if x is self.foreign][0]
+        if sum(len(s.rows[0]) for s in args) > MAX_WIDTH:
+            ctx.cls("skipped_row_would_exceed_%d_columns" % MAX_WIDTH)
+            return
         mats = [s.m for s in args]
         cells = sum(s.cells() for s in args) + 1
         ids = [id(x) for x in mats]
@@ -454,7 +463,9 @@ class Interp(object):
         by = a["by"]
         labels = sorted(s.subsets)
         if by in ("label", "object") and not labels:
-            by = "missing"
+            # register one first (same clauses as the new_subset rule), so that named exports are not starved
+            self.op_new_subset({"k": a["k"], "label": a["which"] % len(SUB_LABELS), "idx": a["idx"]}, d)
+            labels = sorted(s.subsets)
         if by == "missing":
             name = "no_such_subset"
             try:
@@ -466,7 +477,7 @@ class Interp(object):
             return
         if by == "fresh":
             idx = sorted(set(a["idx"]))
-            arg = d.CharacterSubset(label="fresh", character_indices=list(a["idx"]))
+            arg = d.datamodel.charmatrixmodel.CharacterSubset(label="fresh", character_indices=list(a["idx"]))
         else:
             label = labels[a["which"] % len(labels)]
             idx = sorted(s.subsets[label])
@@ -498,7 +509,7 @@ class Interp(object):
             # differs from an existing label only by case: undocumented; adopt what the library recorded
             s.subsets = observe_subsets(s.m)
             return
-        self.V(isinstance(res, d.CharacterSubset) and res.label == label and set(res.character_indices) == set(idx),
+        self.V(isinstance(res, d.datamodel.charmatrixmodel.CharacterSubset) and res.label == label and set(res.character_indices) == set(idx),
                "new_subset_returned", lambda: "returned %r" % (res,))
         s.subsets[label] = set(idx)
         self.effective += 1
@@ -571,7 +582,7 @@ class Interp(object):
                 self.V(False, "refuses_foreign_namespace",
                        "%s raised %s instead of the documented TaxonNamespaceIdentityError" % (op, type(e).__name__))
             return
-        o = self.slot(a["o"])
+        o = self.slot(a["k"] + a["off"])     # off == 0 (or a single matrix): the matrix is its own argument
         fn = call(s, o) if call else (lambda: getattr(s.m, op)(o.m))
         both = set(s.rows) & set(o.rows)
         only_o = set(o.rows) - set(s.rows)
@@ -579,10 +590,13 @@ class Interp(object):
         self.ctx.cls("%s:%s" % (op, "self_argument" if o is s else
                                 "partial_overlap" if both and (only_o or only_s) else
                                 "disjoint" if not both else "same_taxa"))
-        hang_key = "C19.terminates.%s.self_argument" % op if o is s else None
-        self.call(op, fn, 2 * (s.cells() + o.cells()) + 1, hang_key=hang_key)
         orows = dict((i, list(r)) for i, r in o.rows.items())
         new = apply_model(dict((i, list(r)) for i, r in s.rows.items()), orows)
+        if max([len(r) for r in new.values()] or [0]) > MAX_WIDTH:
+            self.ctx.cls("skipped_row_would_exceed_%d_columns" % MAX_WIDTH)
+            return
+        hang_key = "C19.terminates.%s.self_argument" % op if o is s else None
+        self.call(op, fn, 2 * (s.cells() + o.cells()) + 1, hang_key=hang_key)
         if new != s.rows:
             self.effective += 1
         s.rows = new
@@ -891,6 +905,6 @@ def run(ctx):
     runner.run_items(ctx, "concat_patterns", pattern_items(ctx.tier), concat_case)
     runner.run_given(ctx, "concat_random", CONCAT_RANDOM, concat_case, (1600 if quick else 24000) // ctx.nshards)
     runner.run_given(ctx, "concat_streams", CONCAT_STREAMS, concat_streams_case, (400 if quick else 4000) // ctx.nshards)
-    total = 2400 if quick else 40000
+    total = 2000 if quick else 40000
     steps = 30 if quick else 60
     stateful.run_machine(ctx, "machine", Interp, INIT, RULES, total // ctx.nshards, steps)
